@@ -604,6 +604,93 @@ def cert_worker(job):
     return acc
 
 
+# ------------------------------------------------------------------ RFC 4716 files in the layouts other implementations write
+R4716_HEADERS = {
+    'S': (b'Subject', b'alice'),
+    'X': (b'x-vendor-note', b'created by another tool'),
+    'L': (b'Subject', b'a value long enough that its writer had to continue it on a second line, as section 3.3 allows'),
+}
+
+
+def rfc4716_text(blob, layout, comment, quoted, wrap):
+    """layout: string over S/X/L/C (C = the Comment header), written per RFC 4716 section 3: 'Header-tag: value',
+    lines of at most 72 bytes, continuation marked by a trailing backslash"""
+    def header(tag, value):
+        line = tag + b': ' + value
+        out = []
+        while wrap and len(line) > 72:
+            out.append(line[:71] + b'\\')
+            line = line[71:]
+        out.append(line)
+        return out
+    lines = [b'---- BEGIN SSH2 PUBLIC KEY ----']
+    for h in layout:
+        if h == 'C':
+            lines += header(b'Comment', (b'"' + comment + b'"') if quoted else comment)
+        else:
+            lines += header(*R4716_HEADERS[h])
+    b64 = base64.b64encode(blob)
+    lines += [b64[i:i + 70] for i in range(0, len(b64), 70)]
+    lines.append(b'---- END SSH2 PUBLIC KEY ----')
+    return b'\n'.join(lines) + b'\n'
+
+
+def rfc4716_worker(job):
+    """public keys and certificates in RFC 4716 form with every header layout of <= 3 headers from {Subject,
+    private-use header, long continued header, Comment}: the key read is the key written, the comment is the
+    Comment header's value whatever stands before or after it; ssh-keygen -i reads the same file to the same key"""
+    acc = core.Acc()
+    alg = job
+    tmp = os.path.join(SCRATCH, 'r4716-%d' % os.getpid())
+    os.makedirs(tmp, exist_ok=True)
+    key = asyncssh.generate_private_key(alg) if alg != 'ssh-rsa' else asyncssh.generate_private_key(alg, key_size=2048)
+    cert = key.generate_user_certificate(key, 'id', principals=['p'])
+    layouts = sorted({''.join(t) for n in range(0, 4) for t in itertools.product('SXLC', repeat=n) if t.count('C') <= 1})
+    comments = [b'plain', b'two  words and: a colon', 'caf\u00e9'.encode()]
+    for kind, blob, imp in (('key', key.public_data, asyncssh.import_public_key), ('cert', cert.public_data, asyncssh.import_certificate)):
+        for layout in layouts:
+            for comment in (comments if 'C' in layout else [None]):
+                for quoted in ((False, True) if comment is not None else (False,)):
+                    text = rfc4716_text(blob, layout, comment or b'', quoted, wrap=True)
+                    rep = {'kind': 'rfc4716', 'alg': alg, 'what': kind, 'layout': layout, 'comment': (comment or b'').decode('latin1'), 'quoted': quoted}
+                    acc.add(core.digest((alg, kind, layout, comment, quoted)), transitions=1,
+                            sample={'layout': layout, 'comment': repr(comment)} if layout == 'SC' and kind == 'key' and quoted else None)
+                    try:
+                        obj = imp(text)
+                    except Exception as exc:        # pylint: disable=broad-except
+                        acc.violation('rfc4716:cannot-read:%s:%s' % (kind, layout), repr(exc)[:200], rep)
+                        continue
+                    if obj.public_data != blob:
+                        acc.violation('rfc4716:different-key:%s:%s' % (kind, layout), 'the key data read differs from the data in the file', rep)
+                    got = obj.get_comment_bytes()
+                    if got != comment:
+                        acc.violation('rfc4716:comment-changed:%s:%s' % (kind, layout), 'file says %r, read as %r' % (comment, got), rep)
+                    if kind == 'key' and SSH_KEYGEN and comment in (None, b'plain') and not quoted:
+                        f = os.path.join(tmp, 'k.pub')
+                        with open(f, 'wb') as fh:
+                            fh.write(text)
+                        r = subprocess.run([SSH_KEYGEN, '-i', '-m', 'RFC4716', '-f', f], capture_output=True)
+                        if r.returncode == 0:
+                            acc.count('rfc4716:ssh-keygen-reads-too')
+                            if r.stdout.split()[1:2] != [base64.b64encode(blob)]:
+                                acc.violation('rfc4716:ssh-keygen-disagrees:%s' % layout, r.stdout[:100].decode('latin1'), rep)
+                        else:
+                            acc.count('rfc4716:ssh-keygen-refuses-layout')
+        # two keys in one file, the second with a header in front of its comment
+        if kind == 'key':
+            text = rfc4716_text(blob, 'C', b'first', False, True) + rfc4716_text(blob, 'SC', b'second', True, True)
+            f = os.path.join(tmp, 'two.pub')
+            with open(f, 'wb') as fh:
+                fh.write(text)
+            ks = asyncssh.read_public_key_list(f)
+            acc.add(core.digest((alg, 'two')), transitions=1)
+            if [k.get_comment_bytes() for k in ks] != [b'first', b'second']:
+                acc.violation('rfc4716:comment-changed:list', 'comments read %r' % ([k.get_comment_bytes() for k in ks],),
+                              {'kind': 'rfc4716', 'alg': alg, 'what': 'list'})
+    shutil.rmtree(tmp, ignore_errors=True)
+    return acc
+
+
 # ------------------------------------------------------------------ keys written by openssl in shapes asyncssh does not write itself
 def foreign_worker(_job):
     acc = core.Acc()
@@ -872,6 +959,7 @@ def main(tier, seed):
              if tier == 'thorough' or c == 'ssh-ed25519' or sj == 'ssh-ed25519']
     acc.merge(core.pmap(cert_worker, core.rotate(cjobs, seed)))
     acc.merge(core.pmap(foreign_worker, [0]))
+    acc.merge(core.pmap(rfc4716_worker, ['ssh-ed25519', 'ssh-rsa', 'ecdsa-sha2-nistp256']))
     acc.merge(core.pmap(paths_worker, KEYTYPES))
     shutil.rmtree(SCRATCH, ignore_errors=True)
     rule = ('7 key types x every private export format/cipher/hash/PBES version asyncssh offers (%d schemes) x '
@@ -896,6 +984,15 @@ def main(tier, seed):
 
 def replay(rep):
     r = rep['replay']
+    if r.get('kind') == 'rfc4716':
+        os.makedirs(SCRATCH, exist_ok=True)
+        acc = rfc4716_worker(r['alg'])
+        v = [x for x in acc.violations if x['replay'].get('layout') == r.get('layout')] or acc.violations[:3]
+        print(json.dumps(v[:5], indent=1, default=repr))
+        if v:
+            print('VIOLATION property=%s replay=(given)' % PROP)
+            return 1
+        return 0
     if r.get('kind') == 'paths':
         os.makedirs(SCRATCH, exist_ok=True)
         acc = paths_worker((r['alg'], dict(KEYTYPES)[r['alg']]))
